@@ -1299,6 +1299,11 @@ func (g *GenState) genOfKind(t *rapid.T, kind string) Action {
 			name = pick(t, "odd", []string{ModSvcName, "x_1", strings.Repeat("n", 70), strings.Repeat("n", 71), "1bad", ""})
 		}
 		a := Action{Kind: KDefine, Signer: pick(t, "author", Signers), Service: name, Schemas: SchemasOK, Desc: "d"}
+		if (g.F.Prop == "C19" || g.F.Prop == "C20") && pct(t, "desc_not_utf8", 2) {
+			// a description that is not valid UTF-8 (stateless validation does not look at it; the binary
+			// encoding carries it as it is): the trigger of a listed finding of C19
+			a.DescHex = hx([]byte("bad\xff\xfedesc"))
+		}
 		if pct(t, "tags", 30) {
 			a.Tags = pick(t, "tagset", [][]string{{"t1"}, {"t1", "t2"}})
 			if pct(t, "dup_tags", 3) {
